@@ -143,6 +143,12 @@ EQ_POOL = [
     lambda r: {"cls": "PDE", "rhs": {"c": "laplace(c) + gradient_squared(c)"}, "bc": _bc(r),
                "bc_ops": {"c:gradient_squared": _bc(r)}},
     lambda r: {"cls": "PDE", "rhs": {"u": "laplace(v) + k", "v": "laplace(u) - u"}, "consts": {"k": r.choice([0, 1])}, "bc": _bc(r)},
+    # rank-agnostic right-hand sides: the same equation object may meet collections whose members have other ranks
+    lambda r: {"cls": "PDE", "rhs": {"a": "-k * a", "b": "-2 * b"}, "consts": {"k": r.choice([1, 0.5])}, "bc": _bc(r), "any_rank": True},
+    lambda r: {"cls": "PDE", "rhs": {"a": "-a + k"}, "consts": {"k": r.choice([0, 1])}, "bc": _bc(r), "any_rank": True},
+    # equations that use a helper function from the user's (one, shared) dictionary of functions
+    lambda r: {"cls": "PDE", "rhs": {"c": "laplace(c) + double(c)"}, "bc": _bc(r), "user_funcs": True},
+    lambda r: {"cls": "PDE", "rhs": {"c": "laplace(double(c)) - c"}, "bc": _bc(r), "user_funcs": True},
 ]
 
 
@@ -205,6 +211,8 @@ def gen_plan(rng, tier, idx):
                         "fill": rng.choice([0.0, 0.0, -1.0, -2.0])})
         elif r < 0.58:
             k = rng.randint(1, 3)
+            if any(e.get("any_rank") for e in eqs.values()) and rng.random() < 0.6:
+                k = 2
             members = [rng.choice(fids) for _ in range(k)]
             ops.append({"op": "collect", "cid": f"c{ncoll % 3}", "fids": members, "copy_fields": rng.random() < 0.3})
             ncoll += 1
